@@ -26,9 +26,9 @@ def main():
     if a.selftest:
         from simcore import selftest
         return selftest.main(a.selftest, a.prop)
-    prop = a.prop.upper()
     if a.replay:
         return runner.replay(a.replay, quiet=a.quiet)
+    prop = a.prop.upper()
     if a.digests:
         from simcore.choices import derive_seed
         mod = runner.load_prop(prop)
